@@ -18,6 +18,8 @@ ASSUMPTIONS = [
 TRUSTED = [
     "numpy / list container semantics (both containers are driven; the model has one list of cells)",
     "independent oracle tools/harness/ringbuffer.py:SlidingMap (dict-based; slot rounding by round(Fraction))",
+    "datetime / zoneinfo arithmetic of CPython (sample and query datetimes are also stamped in fixed-offset and DST zones, "
+    "windows sliding through fall-back / spring-forward transitions; the model sees instants in microseconds)",
 ]
 
 
